@@ -37,8 +37,9 @@ CONSTANTS MaxRoots,  \* external spawns allowed
 
 VARIABLES queue, wq, stl, xo, h
 
-dvars == <<st, woken, cur, ph, blk, left, sig, wt, relay, rw, par, seen, ov, queue, wq, stl, xo, h>>
-view  == <<st, woken, cur, ph, blk, left, sig, wt, relay, rw, par, seen, ov, queue, wq, stl, xo>>
+dvars == <<st, woken, cur, ph, blk, left, sig, wt, relay, rw, par, seen, ov, run, rc, queue, wq, stl, xo, h>>
+\* rc (like h) is a function of the path, not of the state: hidden
+view  == <<st, woken, cur, ph, blk, left, sig, wt, relay, rw, par, seen, ov, run, queue, wq, stl, xo>>
 
 InQ(q, t) == \E i \in 1 .. Len(q) : q[i] = t
 ToSet(q)  == {q[i] : i \in 1 .. Len(q)}
@@ -69,7 +70,8 @@ DStep ==
   /\ LET t == Head(queue) IN
        /\ queue' = Tail(queue)
        /\ IF st[t] = "D"
-          THEN Noop(t) /\ Log(Ev("noop", 0, 0, "", TRUE, 0))
+          THEN Noop(t) /\ (IF run THEN h' = h      \* not observable inside run_until_stalled
+                                  ELSE Log(Ev("noop", 0, 0, "", TRUE, 0)))
           ELSE PollBegin(t) /\ Log(Ev("pb", t, 0, "", FALSE, 0))
   /\ stl' = FALSE
   /\ UNCHANGED <<wq, xo>>
@@ -87,8 +89,26 @@ DPollEnd ==
   /\ queue' = queue
   /\ \E b \in BOOLEAN :
        /\ PollEnd(cur, b)
-       /\ Log(Ev("pe", cur, 0, "", b, 0))
+       \* inside run_until_stalled the future itself reports its return, before
+       \* the spawn wrapper sends the result: no wake_count then
+       /\ Log(<<"pe", cur, 0, "", b, 0, IF run /\ b THEN -1 ELSE Len(queue)>>)
   /\ UNCHANGED <<wq, stl, xo>>
+
+\* Executor::run_until_stalled = step() until the queue is empty
+DRunBegin ==
+  /\ cur = 0 /\ ~stl
+  /\ RunBegin
+  /\ queue' = queue
+  /\ Log(Ev("rb", 0, 0, "", FALSE, 0))
+  /\ UNCHANGED <<wq, stl, xo>>
+
+DRunEnd ==
+  /\ cur = 0 /\ run /\ queue = <<>>
+  /\ RunEnd(rc)
+  /\ queue' = queue
+  /\ Log(Ev("re", 0, 0, "", FALSE, rc))
+  /\ stl' = TRUE
+  /\ UNCHANGED <<wq, xo>>
 
 \* external operations (what the environment does between steps)
 DExtSpawn ==
@@ -182,8 +202,8 @@ DComplete ==
   /\ h' = IF Hist THEN Append(h, <<"complete", cur, 0, "", FALSE, 0, -1>>) ELSE h
   /\ UNCHANGED <<wq, stl, xo>>
 
-SchedNext == DStep \/ DPollEnd \/ DYield \/ DWait \/ DSignal \/ DSpawn \/ DKick \/ DAwait \/ DComplete
-ExtNext   == DExtSpawn \/ DExtKick \/ DExtTry \/ DStall
+SchedNext == DStep \/ DRunEnd \/ DPollEnd \/ DYield \/ DWait \/ DSignal \/ DSpawn \/ DKick \/ DAwait \/ DComplete
+ExtNext   == DExtSpawn \/ DExtKick \/ DExtTry \/ DStall \/ DRunBegin
 Next == SchedNext \/ ExtNext
 
 Spec     == Init /\ [][Next]_dvars
@@ -214,11 +234,11 @@ NoStarvation == \A t \in Tasks : (t \in woken /\ st[t] = "I" /\ cur # t) ~> (cur
 
 -----------------------------------------------------------------------------
 \* generator: one line per distinct between-steps state (h hidden by VIEW)
-EmitState == IF cur = 0 /\ h # <<>> THEN PrintT(ToJson(h)) ELSE TRUE
+EmitState == IF cur = 0 /\ ~run /\ h # <<>> THEN PrintT(ToJson(h)) ELSE TRUE
 \* for the larger configurations: one line per distinct stalled state (a run
 \* of a whole task system to quiescence)
 \* as an ACTION_CONSTRAINT: one line per TRANSITION of the graph (also those
 \* into states already seen), i.e. every (state, action) pair is replayed
-EmitTrans == IF Hist THEN PrintT(ToJson(h')) ELSE TRUE
+EmitTrans == IF Hist /\ ~run' THEN PrintT(ToJson(h')) ELSE TRUE
 EmitStalled == IF stl /\ h # <<>> THEN PrintT(ToJson(h)) ELSE TRUE
 =============================================================================
